@@ -198,6 +198,26 @@ pub fn wellformed(seed: u64, idx: u64) -> Scenario {
             }
         }
     }
+    // a quarter of the runs: an allow-list CORS configuration read from rws.config.toml by the real
+    // start-up code, in every layout editors produce (CRLF line ends, comments, arrays over several
+    // lines), and preflights from a configured origin: whatever the file means to the reader, the
+    // response has to be well-formed
+    if rng.chance(1, 4) {
+        sc.env = super::c09::cors_env(&mut rng);
+        if rng.chance(2, 3) {
+            sc.env.retain(|(k, _)| k != "RWS_CONFIG_CORS_ALLOW_ALL");
+            sc.env.push(("RWS_CONFIG_CORS_ALLOW_ALL".into(), "false".into()));
+        }
+        let origins: Vec<String> = sc.env.iter().find(|(k, _)| k == "RWS_CONFIG_CORS_ALLOW_ORIGINS").map(|(_, v)| v.split(',').filter(|x| !x.is_empty()).map(|x| x.to_string()).collect()).unwrap_or_default();
+        let multiline = rng.chance(1, 2);
+        boot_through_start_up(&mut rng, &mut sc, multiline);
+        for _ in 0..rng.range(1, 3) {
+            let id = sc.conns.len();
+            let o = if origins.is_empty() || rng.chance(1, 4) { "http://a.example".to_string() } else { origins[rng.below(origins.len())].clone() };
+            let m = *rng.pick(&["OPTIONS", "OPTIONS", "GET", "HEAD"]);
+            sc.conns.push(Conn::simple(id, id as u32, req(m, *rng.pick(&["/file.txt", "/", "/missing"]), &[("Origin", &o), ("Access-Control-Request-Method", "PUT"), ("Access-Control-Request-Headers", "content-type")], b""), "configured_origin"));
+        }
+    }
     sc
 }
 
